@@ -3,31 +3,80 @@
 -/
 import DlmsVerif.Model.Time
 import DlmsVerif.Lemmas.Basic
+import DlmsVerif.Lemmas.Time
 
 namespace Props.C16
-open Dlms Spec.DateTime Model.Time
+open Dlms Spec.DateTime Model.Time Lemmas.Time
 
 /-- **layout**: the model of `datetime_to_bytes` writes the 12-byte DLMS layout: year,
     month, day, unspecified weekday, hour, minute, second, hundredths, deviation = minus
     the UTC offset (0x8000 for a naive value), clock status. -/
 theorem C16_layout (d : DT) (st : Nat) : Model.Time.encode d st = Spec.DateTime.encode d st := by
-  sorry
+  unfold Model.Time.encode Spec.DateTime.encode
+  cases d.offset <;> simp [deviationBytes]
 
 theorem C16_length (d : DT) (st : Nat) : (Spec.DateTime.encode d st).length = 12 := by
-  sorry
+  unfold Spec.DateTime.encode
+  cases d.offset <;> simp [deviationBytes, beBytes_length]
 
 /-- **round trip**: decoding returns the same instant with the same UTC offset (naive stays
     naive, aware stays aware — including offset zero), truncated to hundredths, and the
     same status byte. -/
 theorem C16_decode_encode (d : DT) (st : Nat) (h : valid d = true) (hs : st < 256) :
     Model.Time.decode (Spec.DateTime.encode d st) = .ok (trunc d, st) := by
-  sorry
+  unfold Model.Time.decode
+  rw [encode_map]
+  obtain ⟨year, month, day, hour, minute, second, micro, offset⟩ := d
+  simp only [valid, Bool.and_eq_true, decide_eq_true_eq] at h
+  obtain ⟨⟨⟨⟨⟨⟨⟨⟨⟨⟨hy1, hy2⟩, hm1⟩, hm2⟩, hd1⟩, hd2⟩, hh⟩, hmi⟩, hse⟩, hmc⟩, hoff⟩ := h
+  have hdl := daysIn_le year month
+  have e1 : year / 256 % 256 * 256 + year % 256 = year := by omega
+  have e2 : month % 256 = month := by omega
+  have e3 : day % 256 = day := by omega
+  have e4 : hour % 256 = hour := by omega
+  have e5 : minute % 256 = minute := by omega
+  have e6 : second % 256 = second := by omega
+  have e7 : micro / 10000 % 256 = micro / 10000 := by omega
+  have e8 : st % 256 = st := by omega
+  have o1 := optByte_of_ne month none (by omega)
+  have o2 := optByte_of_ne day none (by omega)
+  have o3 := fun r => optByte_of_ne hour r (by omega)
+  have o4 := fun r => optByte_of_ne minute r (by omega)
+  have o5 := fun r => optByte_of_ne second r (by omega)
+  have o6 := fun r => optByte_of_ne (micro / 10000) r (by omega)
+  have y1 : (year == 65535) = false := by simp; omega
+  have c1 : (decide (1 ≤ month) && decide (month ≤ 12)) = true := by simp; omega
+  have c2 : (decide (1 ≤ day) && decide (day ≤ 31)) = true := by simp; omega
+  have c3 : (decide (1 ≤ year) && decide (year ≤ 9999) && decide (day ≤ daysIn year month)) = true := by
+    simp; omega
+  have c4 : (decide (0 ≤ hour) && decide (hour ≤ 23)) = true := by simp; omega
+  have c5 : (decide (0 ≤ minute) && decide (minute ≤ 59)) = true := by simp; omega
+  have c6 : (decide (0 ≤ second) && decide (second ≤ 59)) = true := by simp; omega
+  have c7 : (decide (0 ≤ micro / 10000) && decide (micro / 10000 ≤ 99)) = true := by simp; omega
+  simp only [e1, e2, e3, e4, e5, e6, e7, e8, o1, o2, o3, o4, o5, o6, optByte_255, inRange, y1, c1, c2, c3,
+    c4, c5, c6, c7, Bool.and_self, Bool.not_true, Bool.false_eq_true, if_false, Option.getD_some, trunc]
+  cases offset with
+  | none => simp
+  | some o =>
+    simp only [Bool.and_eq_true, decide_eq_true_eq] at hoff
+    have hs := twos16_signed (-o) (by omega)
+    simp only [twos16_split, hs]
+    have c8 : (-o == -32768) = false := by simp; omega
+    have c9 : (decide (-840 ≤ -o) && decide (-o ≤ 840)) = true := by simp; omega
+    simp only [c8, c9, Bool.false_eq_true, if_false, Bool.not_true, Option.map_some, Int.neg_neg]
 
 /-- the deviation field is minus the offset, for every offset in range. -/
 theorem C16_sign_convention (o : Int) (h : -840 ≤ o ∧ o ≤ 840) :
     deviationBytes (some o) = beBytes 2 (twos16 (-o)) ∧
     (deviationBytes (some o) ≠ deviationBytes none) := by
-  sorry
+  refine ⟨rfl, ?_⟩
+  intro he
+  have hn : twos16 (-o) < 1024 ∨ twos16 (-o) ≥ 64696 ∧ twos16 (-o) < 65536 := by
+    unfold twos16; omega
+  simp only [deviationBytes, beBytes] at he
+  have h1 := congrArg (fun l => (l.map (·.toNat))) he
+  simp at h1
+  omega
 
 /-- **out-of-range fields are refused**: month outside 1..12, day outside 1..days-in-month,
     weekday outside 1..7 (unless 0xFF), hour above 23, minute or second above 59, hundredths
@@ -43,11 +92,66 @@ theorem C16_out_of_range_refused (y1 y0 mo da wd ho mi se hu d1 d0 st : UInt8)
          (se.toNat ≠ 0xFF ∧ se.toNat > 59) ∨ (hu.toNat ≠ 0xFF ∧ hu.toNat > 99) ∨
          (dev ≠ -32768 ∧ (dev < -840 ∨ dev > 840))) :
     Model.Time.decode [y1, y0, mo, da, wd, ho, mi, se, hu, d1, d0, st] = .error .decode := by
-  sorry
+  unfold Model.Time.decode
+  simp only [List.map]
+  simp only [] at h
+  generalize y1.toNat = Y1 at *
+  generalize y0.toNat = Y0 at *
+  generalize d1.toNat = D1 at *
+  generalize d0.toNat = D0 at *
+  generalize mo.toNat = MO at *
+  generalize da.toNat = DA at *
+  generalize wd.toNat = WD at *
+  generalize ho.toNat = HO at *
+  generalize mi.toNat = MI at *
+  generalize se.toNat = SE at *
+  generalize hu.toNat = HU at *
+  generalize hdev : (if D1 * 256 + D0 ≥ 32768 then ((D1 * 256 + D0 : Nat) : Int) - 65536 else ((D1 * 256 + D0 : Nat) : Int)) = dev at h ⊢
+  split
+  · rfl
+  · rename_i hc1
+    split
+    · rename_i y m d hy hm hd
+      split
+      · rfl
+      · rename_i hc2
+        split
+        · rfl
+        · rename_i hc3
+          obtain ⟨hm1, rfl⟩ := optByte_none_some hm
+          obtain ⟨hd1, rfl⟩ := optByte_none_some hd
+          simp only [Bool.not_eq_true', Bool.not_eq_false, Bool.and_eq_true, decide_eq_true_eq] at hc1 hc2 hc3
+          obtain ⟨⟨r1, r2⟩, r3⟩ := hc1
+          obtain ⟨⟨⟨r4, r5⟩, r6⟩, r7⟩ := hc3
+          have r1 := inRange_optByte_none r1
+          have r2 := inRange_optByte_none r2
+          have r3 := inRange_optByte_none r3
+          have r4 := inRange_optByte_some0 r4
+          have r5 := inRange_optByte_some0 r5
+          have r6 := inRange_optByte_some0 r6
+          have r7 := inRange_optByte_some0 r7
+          have hyy : y = Y1 * 256 + Y0 := by
+            split at hy
+            · cases hy
+            · cases hy; rfl
+          subst hyy
+          have hdev' : dev ≠ -32768 ∧ (dev < -840 ∨ dev > 840) := by omega
+          have hne : (dev == -32768) = false := by simpa using hdev'.1
+          apply if_pos
+          simp only [hne, Bool.false_eq_true, if_false]
+          simp only [Bool.not_eq_true', Bool.and_eq_false_iff, decide_eq_false_iff_not]
+          omega
+    · rfl
 
 theorem C16_wrong_length_refused (bs : Bytes) (h : bs.length ≠ 12) :
     Model.Time.decode bs = .error .decode := by
-  sorry
+  unfold Model.Time.decode
+  split
+  · rename_i h'
+    have := congrArg List.length h'
+    simp at this
+    exact absurd this h
+  · rfl
 
 /-- non-vacuity: a leap-day value with offset zero. -/
 example : valid { year := 2024, month := 2, day := 29, hour := 23, minute := 59, second := 59,
